@@ -7,6 +7,7 @@ import (
 	"go/token"
 	"go/types"
 	"sort"
+	"strings"
 
 	"golang.org/x/tools/go/ssa"
 )
@@ -38,6 +39,8 @@ type loopInfo struct {
 	variant0 Term
 	hasVar   bool
 	phiSave  map[*ssa.Phi]Val
+	allowed  map[string][]location
+	headSt   *State
 }
 
 type Frame struct {
@@ -562,6 +565,9 @@ func (f *Frame) execInstrs(b *ssa.BasicBlock, st *State, guard Term) {
 func (f *Frame) enterLoop(li *loopInfo, st *State, guard Term) *State {
 	vc := f.vc
 	h := li.header
+	if f.con != nil && f.con.LoopMod[li.ord] != nil {
+		return f.enterLoopWithFrame(li, st, guard)
+	}
 	// 1. discovery pass: which heap keys does the body write?
 	snap := vc.snapshot()
 	vc.quiet++
@@ -700,6 +706,9 @@ func (f *Frame) checkBackEdge(li *loopInfo, from *ssa.BasicBlock, succIdx int, o
 	for i, cl := range invs {
 		f.assertClause(cl, fmt.Sprintf("loop%d:invariant[%s]:preserved", li.ord, clauseLabel(cl, i)), "invariant", o.st, g, h, nil)
 	}
+	if li.headSt != nil {
+		f.frameObls(o.st, li.headSt, li.allowed, fmt.Sprintf("@loop%d", li.ord), g, f.posString(blockPos(h)))
+	}
 	if dec, ok := f.loopDecreases(li); ok && li.hasVar {
 		env := f.specEnv(o.st, h, nil)
 		if t, err := env.evalTerm(dec.Expr); err == nil {
@@ -815,4 +824,108 @@ func (f *Frame) posString(p token.Pos) string {
 	}
 	pos := f.vc.eng.prog.Fset.Position(p)
 	return fmt.Sprintf("%s:%d", pos.Filename, pos.Line)
+}
+
+// enterLoopWithFrame handles a loop that carries an explicit `loop n modifies`
+// clause: only the listed locations (and the header phis) are havocked, and
+// every back edge must show that nothing else changed.
+func (f *Frame) enterLoopWithFrame(li *loopInfo, st *State, guard Term) *State {
+	vc := f.vc
+	h := li.header
+	f.entrySt = st
+	invs := f.loopInvariants(li)
+	for i, cl := range invs {
+		f.assertClause(cl, fmt.Sprintf("loop%d:invariant[%s]:entry", li.ord, clauseLabel(cl, i)), "invariant", st, guard, h, nil)
+	}
+	nst := st.clone()
+	env := f.specEnv(st, h, nil)
+	li.allowed = map[string][]location{}
+	for _, m := range f.con.LoopMod[li.ord] {
+		func() {
+			defer func() {
+				if r := recover(); r != nil {
+					if se, ok := r.(specErr); ok {
+						vc.specError(Clause{File: f.con.File, Line: f.con.Line, Src: "loop modifies " + specString(m)}, fmt.Errorf("%s", se.msg))
+						return
+					}
+					panic(r)
+				}
+			}()
+			for _, l := range env.locations(m) {
+				li.allowed[l.name] = append(li.allowed[l.name], l)
+				vc.havoc(nst, l)
+			}
+		}()
+	}
+	li.phiSave = map[*ssa.Phi]Val{}
+	for _, in := range h.Instrs {
+		phi, ok := in.(*ssa.Phi)
+		if !ok {
+			break
+		}
+		li.phiSave[phi] = f.env[phi]
+		nv := vc.freshVal(phi.Type(), "phi."+phi.Comment)
+		old := f.env[phi]
+		if old.K == KPtr && len(old.Path) == 1 && !old.Path[0].IsIdx {
+			nv.Path = old.Path
+		}
+		f.env[phi] = nv
+	}
+	li.headSt = nst.clone()
+	f.entrySt = nst
+	for _, cl := range invs {
+		f.assumeClause(cl, nst, guard, h, nil)
+	}
+	if dec, ok := f.loopDecreases(li); ok {
+		env := f.specEnv(nst, h, nil)
+		if t, err := env.evalTerm(dec.Expr); err == nil {
+			li.variant0 = vc.nameTerm(t, "variant")
+			li.hasVar = true
+		} else {
+			vc.specError(dec, err)
+		}
+	}
+	return nst
+}
+
+// frameObls emits the obligations that cur differs from base only at the
+// allowed locations (or at freshly allocated objects).
+func (f *Frame) frameObls(cur, base *State, allowed map[string][]location, label string, guard Term, where string) {
+	vc := f.vc
+	for _, k := range sortedKeys(boolKeys(cur.H)) {
+		c := cur.H[k]
+		b, ok := base.H[k]
+		if !ok {
+			b = Term{smtName(k) + "@0", c.Sort}
+		}
+		if c.S == b.S || k == "G.alloc" {
+			continue
+		}
+		whole := false
+		for _, l := range allowed[k] {
+			if l.whole || len(l.idx) == 0 {
+				whole = true
+			}
+		}
+		if whole {
+			continue
+		}
+		if !strings.HasPrefix(string(c.Sort), "(Array ") {
+			vc.addObl(&Obligation{Name: fmt.Sprintf("frame[%s]%s", k, label), Kind: "frame", Goal: Eq(c, b), Guard: guard,
+				Src: k + " is not in modifies, so it must be unchanged", Where: where})
+			continue
+		}
+		i := vc.freshConst("frame.i", idxSort(c.Sort))
+		var hyps []Term
+		for _, l := range allowed[k] {
+			hyps = append(hyps, Ne(i, l.idx[0]))
+		}
+		if idxSort(c.Sort) == SInt {
+			for _, n := range vc.news {
+				hyps = append(hyps, Ne(i, n))
+			}
+		}
+		vc.addObl(&Obligation{Name: fmt.Sprintf("frame[%s]%s", k, label), Kind: "frame", Goal: Eq(Select(c, i), Select(b, i)), Hyps: hyps, Guard: guard,
+			Src: "only locations listed in modifies (or freshly allocated) may differ in " + k, Where: where})
+	}
 }
